@@ -494,7 +494,7 @@ func c03Shapes(thorough bool, emit func(kind, src string) bool) {
 				calls = append(calls, b+"("+a+", "+a2+")")
 			}
 		}
-		if b == "subst" || thorough {
+		if b == "subst" || (thorough && multi) {
 			third := []string{`"c"`, `$1`, `X`}
 			if thorough {
 				third = c03Forms
